@@ -1,10 +1,8 @@
 import BoolFn.Proofs.Expr
+import BoolFn.Spec.Recipe
 /-! Wide nodes of literals: helper lemmas for the "many eliminated inputs" laws (C06). -/
 namespace BoolFn
 variable {α : Type} [DecidableEq α]
-
-/-- the literal `x` / `!x` -/
-def litE (p : α × Bool) : Expr α := if p.2 then .lit p.1 else .not (.lit p.1)
 
 omit [DecidableEq α] in
 theorem den_litE (ρ : α → Bool) (p : α × Bool) : (litE p).den ρ = (ρ p.1 == p.2) := by
